@@ -607,6 +607,18 @@ def variant_model(rng, m, force=None):
                                          ([_g(rng.choice([0.5, 1.0, 3.0]))] if rng.random() < 0.5 else []))
         else:
             how = rng.choice(['voltage', 'segments', 'radius', 'same'])
+    if how == 'move_middle_wire':
+        wi = [i for i, x in enumerate(v.argv_geo) if x == '-w']
+        if len(wi) >= 5:
+            j = wi[len(wi) // 2] + 1
+            parts = v.argv_geo[j].split(',')
+            off = 1 if len(parts) == 9 else 0
+            dx = 0.12 * (v.length or 1.0)
+            for pos in (off + 1, off + 4):
+                parts[pos] = _g(float(parts[pos]) + dx)
+            v.argv_geo[j] = ','.join(parts)
+        else:
+            how = 'same'
     if 'tail' in m.features and rng.random() < 0.5 and not force:
         how = 'reattach'
     if how == 'reattach':
@@ -1463,7 +1475,7 @@ def floor_plans(base_seed, tier='quick'):
         plans.append(long_plan(base_seed * 1000003 + 950000 + j, tier, kind, count))
     # sizes beyond library / block thresholds
     for j, kind in enumerate(['model', 'grid', 'cli', 'grid']):
-        plans.append(big_plan(base_seed * 1000003 + 960000 + j, tier, kind))
+        plans.append(big_plan(base_seed * 1000003 + 960000 + j, tier, kind, floor=True))
     plans += sibling_floor_plans(base_seed, tier)
     return plans
 
@@ -1661,7 +1673,7 @@ def long_plan(run_seed, tier='quick', kind=None, count=None):
 
 # ---------------------------------------------------------------- big worlds
 
-def big_model(rng):
+def big_model(rng, at_least=0):
     """A model of 250..450 pulses (an array of parallel elements): sizes
     beyond the thresholds at which libraries and 'clever' code change
     behaviour (numpy summarises printed arrays above 1000 elements, block and
@@ -1669,6 +1681,8 @@ def big_model(rng):
     m = Model()
     k = rng.randrange(12, 21)
     ns = rng.randrange(18, 25)
+    while k * (ns - 1) < at_least:
+        k += 1
     L = rng.choice([1.0, 2.0])
     r = rng.choice([0.001, 0.002])
     env = rng.choice(['free', 'free', 'ideal'])
@@ -1693,19 +1707,22 @@ def big_model(rng):
     return m
 
 
-def big_plan(run_seed, tier='quick', kind=None):
+def big_plan(run_seed, tier='quick', kind=None, floor=False):
     rng = random.Random(run_seed)
     kind = kind or rng.choice(['model', 'grid', 'cli'])
     far_big = [[0, 5, 37], [0, 5, 73], None, 0]
     far_big2 = [[0, 2, 46], [0, 4, 91], 100.0, 1000.0]
     tasks = []
     if kind == 'model':
-        m = big_model(rng)
+        m = big_model(rng, at_least=340 if floor else 0)
         f0 = round(150.0 / m.length, 3)
         pool = [f0, round(f0 * 1.03, 3)]
         ops = [['COMPUTE'], ['OBS_NUM'], ['SET_F', 1], ['COMPUTE'], ['FAR', 0], ['OBS_NUM'],
                ['OBS_REPORT', ['far-field']]]
-        sib = (fuzz_variant if rng.random() < 0.6 else variant_model)(rng, m)
+        if floor:
+            sib = variant_model(rng, m, force='move_middle_wire')
+        else:
+            sib = (fuzz_variant if rng.random() < 0.6 else variant_model)(rng, m)
         for mm_ in (m, sib):
             tasks.append(dict(kind='api', builder='cli', argv=mm_.argv(), pool=list(pool),
                               fars=[gen_far(rng)], nears=[], ops=[list(o) for o in ops],
@@ -1727,12 +1744,15 @@ def big_plan(run_seed, tier='quick', kind=None):
                           npulses=m.min_pulses() + 2 * len(m.geo)))
         sched = [0] * len(ops)
     else:
-        m = big_model(rng) if rng.random() < 0.5 else gen_model(rng)
+        m = big_model(rng, at_least=340 if floor else 0) if (floor or rng.random() < 0.5) else gen_model(rng)
         f0 = round(150.0 / max(m.length, 1.0), 3)
         grid = ['--theta=0,5,37', '--phi=0,5,73'] if 'big_model' not in m.features or rng.random() < 0.3 \
             else ['--theta=0,30,3', '--phi=0,90,2']
         base = ['-f', repr(f0)] + m.argv() + grid + ['--output-cmdline', 'big.txt']
-        sib = (fuzz_variant if rng.random() < 0.6 else variant_model)(rng, m)
+        if floor and 'big_model' in m.features:
+            sib = variant_model(rng, m, force='move_middle_wire')
+        else:
+            sib = (fuzz_variant if rng.random() < 0.6 else variant_model)(rng, m)
         other = ['-f', repr(f0)] + sib.argv() + grid + ['--output-cmdline', 'big.txt']
         ops = [['RUN', base], ['RUN', other], ['SWEEP', base, round(f0 * 0.02, 4), 2, 0], ['RUN', other], ['RUN', base]]
         tasks.append(dict(kind='cli', ops=[_copy_op(o) for o in ops], template=m.template, env=m.env,
@@ -1779,13 +1799,16 @@ def sibling_floor_plans(base_seed, tier='quick', reps=2):
     i = 0
     for kind in list(VARIANT_KINDS) + ['fuzz']:
         spec = _SIB_BASE[kind]
-        for rep in range(reps):
+        nrep = max(reps, len(spec['kinds']), len(spec['templates']))
+        for rep in range(nrep):
             seed = base_seed * 1000003 + 970000 + i
             i += 1
             rng = random.Random(seed)
             for attempt in range(20):
-                base = gen_model(rng, env=rng.choice(spec['envs']), kinds=rng.choice(spec['kinds']),
-                                 template=rng.choice(spec['templates']))
+                # cycle through the listed load kinds / templates / environments
+                base = gen_model(rng, env=spec['envs'][rep % len(spec['envs'])],
+                                 kinds=spec['kinds'][rep % len(spec['kinds'])],
+                                 template=spec['templates'][rep % len(spec['templates'])])
                 sib = fuzz_variant(rng, base) if kind == 'fuzz' else variant_model(rng, base, force=kind)
                 if kind == 'fuzz' or ('variant_' + kind) in sib.features:
                     break
